@@ -160,7 +160,10 @@ func c17RunSeeded(s c17Seeded, keep bool) (hashes []uint64, keys []string, err e
 				_, _ = sp.ComputeMaxAndAvgFitness()
 			}
 		}
-		ex := &genetics.SequentialPopulationEpochExecutor{}
+		ex := processSeqExec
+		if ex == nil {
+			ex = &genetics.SequentialPopulationEpochExecutor{}
+		}
 		if err = ex.NextEpoch(ctx, e, pop); err != nil {
 			return hashes, keys, err
 		}
@@ -312,6 +315,7 @@ func c17Verbose(on bool) {
 
 func runC17(c *Ctx) {
 	startGenomes = map[string]*genetics.Genome{} // every run of this process starts from the same genome objects
+	shareExecutors()                             // ... and uses the same executor values
 	scs := c17Scenarios(c.Quick())
 	seeded := c17SeededList(c)
 	// second process first (it is independent of everything below)
@@ -508,6 +512,7 @@ func runC17(c *Ctx) {
 
 func replayC17(c *Ctx, rp *Replay) (bool, string) {
 	startGenomes = map[string]*genetics.Genome{}
+	shareExecutors()
 	defer c17Verbose(false)
 	if rp.Scenario == "seeded" {
 		s := c17Seeded{Seed: int64(paramInt(rp, "seed")), Cfg: paramInt(rp, "cfg"), Start: paramStr(rp, "start"), Fit: paramInt(rp, "fit"), Epochs: paramInt(rp, "epochs")}
